@@ -55,6 +55,18 @@ func (c Config) String() string {
 	return fmt.Sprintf("%s/s%d/u%v/b%v/%s", c.Variant, c.ReqSlot, c.Unique, c.Balance, c.KeyKind)
 }
 
+// Scenario is the scenario class used in violation signatures.
+func (c Config) Scenario() string {
+	s := "dup"
+	if c.Unique {
+		s = "uniq"
+	}
+	if c.Balance && c.Variant == "owned" {
+		return s + "-bal"
+	}
+	return s + "-nobal"
+}
+
 // KeepsTag reports whether the key kind can carry the Tag payload.
 func (c Config) KeepsTag() bool { return c.KeyKind != "int" }
 
